@@ -98,25 +98,26 @@ class Engine:
             return "refuted", ms, "z3: sat (counter-model found)", m
         # z3 gave up.  Quantified queries are sensitive to the instantiation order: one retry with another random seed (a proof
         # found this way is as good as any other; a `sat` answer is as well), then cvc5 as a second opinion on the same SMT-LIB text
-        s_retry = z3.Solver()
-        s_retry.set("timeout", self.timeout_ms)
-        for key in ("random_seed", "smt.random_seed"):
-            try:
-                s_retry.set(key, 7)
-            except Exception:  # noqa: BLE001
-                pass
-        for a in assumptions:
-            s_retry.add(a)
-        s_retry.add(z3.Not(goal))
-        t1 = time.time()
-        r = s_retry.check()
-        ms2 = (time.time() - t1) * 1000
-        self.solver_ms += ms2
-        ms += ms2
-        if r == z3.unsat:
-            return "discharged", ms, "", None
-        if r == z3.sat:
-            return "refuted", ms, "z3: sat (counter-model found)", s_retry.model()
+        for seed_ in (7, 13, 42):
+            s_retry = z3.Solver()
+            s_retry.set("timeout", max(2000, self.timeout_ms // 2))
+            for key in ("random_seed", "smt.random_seed"):
+                try:
+                    s_retry.set(key, seed_)
+                except Exception:  # noqa: BLE001
+                    pass
+            for a in assumptions:
+                s_retry.add(a)
+            s_retry.add(z3.Not(goal))
+            t1 = time.time()
+            r = s_retry.check()
+            ms2 = (time.time() - t1) * 1000
+            self.solver_ms += ms2
+            ms += ms2
+            if r == z3.unsat:
+                return "discharged", ms, "", None
+            if r == z3.sat:
+                return "refuted", ms, "z3: sat (counter-model found)", s_retry.model()
         st2, d2 = _cvc5_second_opinion(s, self.timeout_ms)
         if st2 == "unsat":
             return "discharged", ms, "cvc5", None
